@@ -37,13 +37,24 @@ TYPES_INV = {v: k for k, v in TYPES.items()}
 REASONS = {"": "u", "rollback": "rb", "replication_mutation": "rep", "random_mutation": "rnd"}
 
 
+_OBJS: dict = {}     # mutable value objects of the case being run: code 200..299 -> THE list object [code]
+
+F_ALIAS = "C20-shared-mutable-value-objects"
+F_READD = "C20-refused-readd-not-logged"
+
+
 def val(code: int):
+    if 200 <= code < 300:
+        # a mutable value: one OBJECT per code and case (the code is its identity; `poke` appends to it in place)
+        return _OBJS.setdefault(code, [code])
     return SPECIAL[code] if code in SPECIAL else code
 
 
 def code(v) -> str:
     if type(v) is int:
         return str(v)
+    if type(v) is list and v and type(v[0]) is int and 200 <= v[0] < 300 and all(x == 0 for x in v[1:]):
+        return str(v[0] + 1000 * (len(v) - 1))       # identity + 1000 * number of in-place mutations
     for c, s in SPECIAL.items():
         if type(s) is type(v) and s == v:
             return str(c)
@@ -187,6 +198,7 @@ class C20(Prop):
         + ["rollback:allow:1", "rollback:allow:0", "rollback:nocb:0", "rollback:cb:0", "rollback:cb:1",
            "rollback:cb:raise"]
         + ["replicate:allow:ok", "replicate:nocb:ok", "replicate:cb:ok", "replicate:cb:raise"]
+        + ["poke:none", "poke:own", "poke:shared"]
         + ["assign:allow:0", "assign:allow:1", "assign:cb:none", "assign:cb:some", "assign:rate:0", "assign:rate:1"]
     )
     assumptions = [
@@ -212,6 +224,11 @@ class C20(Prop):
                         "get_value and the gate decisions of mutate / rollback_mutation / add_gene (settings from the "
                         "constructor or assigned later) are proved equal to decision tables EVALUATED on the real class on "
                         "every run (Operon/Gen/GenomeTables.lean; theorems c20_*_agrees_with_evaluated_source)"]
+
+    _attr: dict = {}
+
+    def trigger(self, case):
+        return self._attr.get(tuple(case["lines"]))
 
     def setup(self, ctx):
         import_repo()
@@ -241,6 +258,9 @@ class C20(Prop):
                 continue
             if rng.random() < 0.06:
                 yield self._scripted(rng)
+                continue
+            if rng.random() < 0.05:
+                yield self._objects(rng)
                 continue
             names = list(range(rng.choice([1, 2, 2, 3, 3, 4])))
             # approval set
@@ -403,12 +423,41 @@ class C20(Prop):
                 count += 1
         return {"lines": lines, "note": "scripted gate answers"}
 
+    def _objects(self, rng):
+        """mutable value objects (codes 200..): shared between parent and child by replicate, logged by mutate, handed
+        out by get_gene / get_value / express / export — and mutated in place by the caller (`poke`)"""
+        lines = [f"adv {rng.choice(['0:*,1:*', '0:*', '-'])} -",
+                 f"new {rng.choice('001')} {rng.choice(['0', '0', 'none'])} 0 0:200:{rng.choice('ssc')}:1:{rng.choice('0223')} "
+                 f"1:{rng.choice([2, 201])}:h:0:2"]
+        count, nxt = 1, 202
+        for _ in range(rng.randint(3, 9)):
+            i, nm = rng.randrange(count), rng.choice([0, 0, 1])
+            r = rng.random()
+            if r < 0.35:
+                lines.append(f"poke {i} {nm} {rng.choice(['gene', 'gene', 'getv', 'express', 'export'])}")
+            elif r < 0.5:
+                lines.append(f"replicate {i} {rng.randint(0, 1)} " + rng.choice(["-", "-", f"{nm}:{nxt}"]))
+                nxt += 1
+                count += 1
+            elif r < 0.7:
+                lines.append(f"mutate {i} {nm} {rng.choice([nxt, 7])}")
+                nxt += 1
+            elif r < 0.85:
+                lines.append(f"rollback {i} {nm}")
+            elif r < 0.92:
+                lines.append(rng.choice([f"silence {i} {nm}", f"activate {i} {nm}", f"express {i} {nm}", f"diff 0 {i}"]))
+            else:
+                lines.append(f"add {i} {nm}:{nxt}:s:0:2")
+                nxt += 1
+        return {"lines": lines, "note": "mutable value objects mutated in place"}
+
     def _malformed(self, rng):
         junk = ["mutate", "mutate 0", "mutate x 1 2", "add 0 1:2:z:0:2", "add 0 1:2:s:0:9", "expr 0 0 7", "frob 1 2",
                 "replicate 0 1 1;2", "express 0 a,b", "new 0 zz 0", "rollback 0", "getv 5 0", "mutate 9 0 1",
                 "replicate 7 1 -", "express 4 -", "adv 1:q -",
                 "setallow 0 2", "setallow 0", "setcb 0 x", "setallow 9 1", "setcb 7 none", "setrate 0 yes", "setrate 0 1",
-                "setcb 0 none", "setallow 0 1", "stats 0", "stats 9", "stats"]
+                "setcb 0 none", "setallow 0 1", "stats 0", "stats 9", "stats", "poke 0 0 gene", "poke 0 0 attr",
+                "poke 0 0", "poke 9 0 gene", "poke 0 7 express"]
         lines = ["adv 0:* -", "new 0 0 0 0:1:s:0:2 1:2:c:0:2"]
         for _ in range(rng.randint(2, 6)):
             lines.append(rng.choice(junk) if rng.random() < 0.6 else rng.choice(
@@ -482,6 +531,23 @@ class C20(Prop):
                                "setallow/setcb/mutate/rollback/replicate/re-add alphabet" +
                                (" and of depth 4 over its first 7 operations" if dG > 3 else "") + ", between an initial "
                                "mutate and a final mutate + rollback x 3 gate configurations", "cases": cG})
+        # mutable value objects: sharing through replicate / the log / the accessors, in-place mutation by the caller
+        alphaO = ["replicate 0 1 -", "poke 0 0 gene", "poke 1 0 express", "mutate 1 0 201", "rollback 1 0", "poke 1 0 getv",
+                  "mutate 0 0 202", "poke 0 0 export", "silence 1 0"]
+        dO = 3 if tier == "quick" else 4
+        cO = []
+        for nw in ("new 0 0 0 0:200:s:1:2 1:2:c:0:3", "new 1 none 0 0:200:c:1:2 1:2:c:0:3"):
+            for k in range(1, dO + 1):
+                for ops in itertools.product(alphaO if k <= 3 else alphaO[:6], repeat=k):
+                    if not any(o.startswith("poke") for o in ops):
+                        continue
+                    cO.append({"lines": ["adv 0:* -", nw] + list(ops) + ["express 0 0", "diff 0 1"],
+                               "note": f"exhaustive value objects depth {k}"})
+        spaces.append({"name": f"all histories of depth <= 3 (thorough: depth 4 over the first 6) with at least one in-place "
+                               "mutation over a 9-operation replicate/poke/mutate/rollback/silence alphabet on a genome whose "
+                               "gene 0 holds a mutable object x 2 gate configurations (open finding "
+                               "C20-shared-mutable-value-objects: model = implementation, oracle violations expected)",
+                       "cases": cO})
         if tier != "quick":
             # depth 5 on the operations that interact through the log (approve / refuse / rollback / replicate)
             alpha5 = ["mutate 0 0 7", "mutate 0 0 5", "mutate 0 1 8", "rollback 0 0", "replicate 0 1 0:7",
@@ -498,6 +564,7 @@ class C20(Prop):
     def run_impl(self, case):
         m = self.m
         w = World()
+        _OBJS.clear()
         obs, recs = [], []
         classes: dict = {}
 
@@ -543,6 +610,7 @@ class C20(Prop):
                     g = w.pool[parsed[1]]
                     rec["target"] = parsed[1]
                     if kind == "add":
+                        rec["name"], rec["val"] = ncode(parsed[2].name), code(parsed[2].value)
                         res = f"ret {show_bool(g.add_gene(parsed[2]))}"
                     elif kind == "mutate":
                         rec["name"], rec["val"] = str(parsed[2]), str(parsed[3])
@@ -594,6 +662,22 @@ class C20(Prop):
                         rows = {ncode(k_): f"{ncode(k_)}:{sh(a_, g.get_gene(k_) is None)}/{sh(b_, other.get_gene(k_) is None)}"
                                 for k_, (a_, b_) in d_.items()}
                         res = "diff [" + ",".join(v_ for _, v_ in sorted(rows.items(), key=lambda kv: _num(kv[0]))) + "]"
+                    elif kind == "poke":
+                        nm_, via = gname(parsed[2]), parsed[3]
+                        if via == "gene":
+                            ge_ = g.get_gene(nm_)
+                            obj = None if ge_ is None else ge_.value
+                        elif via == "getv":
+                            obj = g.get_value(nm_)
+                        elif via == "express":
+                            obj = g.express({nm_: 1}).get(nm_)
+                        else:
+                            obj = next((d_["value"] for d_ in g.export()["genes"] if d_["name"] == nm_), None)
+                        if type(obj) is list and obj and obj[0] in _OBJS:
+                            obj.append(0)               # the caller mutates the object it was handed
+                            res = f"poked {obj[0]}"
+                        else:
+                            res = "poke none"
                     elif kind == "stats":
                         st_ = g.get_statistics()
                         order_t = ["structural", "regulatory", "housekeeping", "conditional", "dormant"]
@@ -656,6 +740,10 @@ class C20(Prop):
             return ("mutate", nat(t[1]), nat(t[2]), nat(t[3]))
         if op in ("rollback", "silence", "activate", "getv") and len(t) == 3:
             return (op, nat(t[1]), nat(t[2]))
+        if op == "poke" and len(t) == 4:
+            if t[3] not in ("gene", "getv", "express", "export"):
+                return None
+            return ("poke", nat(t[1]), nat(t[2]), t[3])
         if op in ("setallow", "setrate") and len(t) == 3:
             if t[2] not in ("0", "1"):
                 return None
@@ -693,6 +781,9 @@ class C20(Prop):
         ptouched = {}      # child -> genes of the parent so changed since the child's birth
 
         def V(clause, exp, got, idx):
+            if recs[idx].get("op") == "poke":
+                # whatever an in-place mutation of a handed-out object changes in a genome is the aliasing finding
+                clause = "value_object_aliasing"
             out.append(Violation(clause, exp, got, idx))
 
         def values(s):
@@ -747,7 +838,7 @@ class C20(Prop):
                 # the log is append-only: what was logged stays logged
                 if a["log"][:len(b["log"])] != b["log"]:
                     V("refused_logged", f"log of genome {gid} only grows", "earlier entries changed", idx)
-                if not (gid == tgt and op in ("mutate", "rollback")) and a["log"] != b["log"]:
+                if not (gid == tgt and op in ("mutate", "rollback", "add")) and a["log"] != b["log"]:
                     V("refused_logged", f"log of genome {gid} untouched by {r['line']!r}", "log changed", idx)
 
             if tgt is None or tgt >= len(before):
@@ -807,6 +898,19 @@ class C20(Prop):
 
             # add: under allow a re-add is an authorised (unlogged) change; a fresh name is outside the property
             if op == "add" and not raised:
+                # "every refused attempt is logged as unapproved" — re-adding a gene is the first operation the
+                # property names: a refused re-add must leave an unapproved entry for that gene; an add may log
+                # nothing else
+                n_ = r.get("name")
+                new_ = a["log"][len(b["log"]):]
+                if any(m_["gene"] != n_ or m_["approved"] for m_ in new_):
+                    V("refused_logged", f"add_gene logs at most its own refusal", f"new entries {new_}", idx)
+                if n_ in bv and not b["allow"]:
+                    if r["res"] != "ret 0":
+                        V("refused_logged", "refused re-add returns False", r["res"], idx)
+                    if not any(m_["gene"] == n_ and not m_["approved"] for m_ in new_):
+                        V("refused_readd_logged", f"refused re-add of gene {n_} -> {r.get('val')}: an unapproved log entry",
+                          f"new entries {new_}", idx)
                 added = set(values(a)) - set(bv)
                 changed = {n for n in bv if n in a["genes"] and a["genes"][n] != b["genes"][n]}
                 for n in added | changed:
@@ -932,6 +1036,14 @@ class C20(Prop):
                         if cvs.get(n) != pvs.get(n) and n not in ok:
                             V("child_differs_only_in_authorised", f"gene {n}: child {cid} = parent {pid} "
                               f"(never changed with authorisation)", f"{cvs.get(n)} vs {pvs.get(n)}", idx)
+        # attribution to the open known findings (core excuses a case only if model and implementation agree on it)
+        key = tuple(case["lines"])
+        if any(r_.get("op") == "poke" and str(r_.get("res", "")).startswith("poked") for r_ in recs):
+            self._attr[key] = F_ALIAS          # an object held by a genome was mutated in place by the caller
+        elif out and all(v_.clause == "refused_readd_logged" for v_ in out):
+            self._attr[key] = F_READD          # nothing but unlogged refused re-adds
+        else:
+            self._attr.pop(key, None)
         return out
 
     def nontrivial(self, case, obs):
